@@ -122,6 +122,11 @@ func replay(path string, w *tlaio.Writer, st *stats) error {
 			if at != sp.At {
 				diverged = true
 			}
+		case "cancel":
+			if !x.cancelProc(sp.P) {
+				diverged = true
+				continue
+			}
 		case "persist":
 			if !x.persist() {
 				diverged = true
@@ -141,6 +146,7 @@ func replay(path string, w *tlaio.Writer, st *stats) error {
 	}
 	x.drain()
 	x.emit(map[string]any{"ev": "end"})
+	x.restartAndProbe()
 	x.close()
 	st.Skipped += x.nSkipped
 	st.Stuck += x.nStuck
@@ -255,9 +261,13 @@ func main() {
 		freeRun(w, st, pops[i%len(pops)], *seed*7919+int64(i)*31+int64(*shard))
 	}
 	if err := w.Close(); err != nil {
+		fmt.Fprintln(os.Stderr, "HARNESS-ERROR closing trace:", err)
 		os.Exit(2)
 	}
 	if *statsOut != "" {
-		_ = tlaio.WriteJSON(*statsOut, st)
+		if err := tlaio.WriteJSON(*statsOut, st); err != nil {
+			fmt.Fprintln(os.Stderr, "HARNESS-ERROR writing stats:", err)
+			os.Exit(2)
+		}
 	}
 }
